@@ -167,6 +167,8 @@ def _reassign_annulus(self, p, c2, ri2, ro2):
 
 @contract(CIRCLE_ANN + '.contains', props=['C08', 'C13', 'C02', 'C01'])
 class annulus_follows_assignment:
+    max_paths = 8         # three masks of two circles each: a change that makes mask code branch would otherwise multiply paths (2^6)
+
     def setup(B):
         return dict(self=circle_annulus(B, 'r', 'bool'), p=pix(B, 'p'), c2=pix(B, 'c2'), ri2=B.real('ri2'), ro2=B.real('ro2'))
     pre = lambda self, ri2, ro2: circle_annulus_ok(self) and 0 < ri2 and ri2 < ro2
